@@ -197,7 +197,11 @@ func (ap *AttestationPool) Search(opts ...AttSearchOption) (out []*phase0.Attest
 		if conf.comm != nil && d.Data.Index != *conf.comm {
 			continue
 		}
-		agg := ap.aggregate[k]
+		agg, ok := ap.aggregate[k]
+		if !ok {
+			// only individual (or rejected) attestations are known for this data
+			continue
+		}
 		for _, a := range agg.Aggregates {
 			out = append(out, &phase0.Attestation{AggregationBits: a.Participants, Data: d.Data, Signature: a.Sig})
 		}
